@@ -1,7 +1,9 @@
 import SppModel.Generated.ReaderArith
+import SppModel.Frozen.ReaderArith
 import SppModel.Lemmas.KernelLink
 import SppModel.Lemmas.Loop
 import SppModel.Generated.LoopKernels
+import SppModel.Frozen.LoopKernels
 /-!
 # Kernel specification — `kernels.extract_tim` as translated computes its definition (C06)
 
@@ -12,10 +14,10 @@ of an index expression, a loop bound or an operand in the source changes the gen
 the proof.
 -/
 namespace SppModel.KernelSpecs
-open SppModel SppModel.Loop SppModel.Generated.LoopKernels SppModel.KernelSpecs.LinkA
+open SppModel SppModel.Loop SppModel.Frozen.LoopKernels SppModel.KernelSpecs.LinkA
 
 /-- the kernel was recognised by the translator on this run -/
-theorem extract_tim_translated : ∀ f ∈ translationFailures, f.1 ∉ ["kernels_py_loops", "loop_extract_tim"] := by decide
+theorem extract_tim_translated : ∀ f ∈ Generated.LoopKernels.translationFailures, f.1 ∉ ["kernels_py_loops", "loop_extract_tim"] := by decide
 
 /-- `extract_tim`: `out[index + t] = Σ_c in[C*t + c]` for `t < n`; nothing else is touched -/
 theorem extract_tim_spec (inp out : Nat → Rat) (C n idx j : Nat) :
@@ -42,10 +44,10 @@ theorem extract_tim_spec (inp out : Nat → Rat) (C n idx j : Nat) :
 /-- **link to the C06 model**: run on the data of plan block `b` with the source's output offset, the kernel
     writes at the model's index `b.ii * g + t` exactly the model's value `rowSum` (`Reduce.collapseWrites`) -/
 theorem collapse_block_link (flat : List Int) (C g : Nat) (b : Plan.Blk) (out : Nat → Rat) (t : Nat) (ht : t < b.len) :
-    extract_tim (blockData flat C b) out C b.len (Generated.ReaderArith.collapse_index g b.ii) (b.ii * g + t)
+    extract_tim (blockData flat C b) out C b.len (Frozen.ReaderArith.collapse_index g b.ii) (b.ii * g + t)
       = ((Reduce.rowSum flat C (b.off + t) : Int) : Rat) := by
   rw [extract_tim_spec]
-  unfold Generated.ReaderArith.collapse_index
+  unfold Frozen.ReaderArith.collapse_index
   have h : b.ii * g ≤ b.ii * g + t ∧ b.ii * g + t < b.ii * g + b.len := by omega
   rw [if_pos h, Nat.add_sub_cancel_left]
   unfold Reduce.rowSum
@@ -55,7 +57,7 @@ theorem collapse_block_link (flat : List Int) (C g : Nat) (b : Plan.Blk) (out : 
 /-- the executable twin run by the correspondence check (`K` requests of the driver) is the same function:
     it only tabulates the loop state after each iteration (`Loop.forRangeM_eq`) -/
 theorem extract_tim_exec_eq (memo : Nat) (inp out : Nat → Rat) (C n idx : Nat) :
-    extract_tim_exec memo inp out C n idx = extract_tim inp out C n idx := by
-  simp only [extract_tim_exec, extract_tim, Loop.forRangeM_eq]
+    Generated.LoopKernels.extract_tim_exec memo inp out C n idx = Generated.LoopKernels.extract_tim inp out C n idx := by
+  simp only [Generated.LoopKernels.extract_tim_exec, Generated.LoopKernels.extract_tim, Loop.forRangeM_eq]
 
 end SppModel.KernelSpecs
